@@ -9,6 +9,9 @@ BUILT = {
  "C05": ("fault_enumeration", "runtime monitor: real runs over the full error-policy truth table (2^6 policies x fault kind x fault position x validation-mode override) observed by LineEvent and ErrorHandler hooks",
          "Every cell of the policy table is executed; per run the monitors observe whether an exception escaped, what was collected (with line numbers), validity, where the run stopped, what the printers received and which lines matched, and compare with the conjunction of effective flags.",
          "truth table written from the property statement / docs/config.md; 'match' override: no claim about the faulting line's match", "DESIGN.md#c05"),
+ "C06": ("exploration", "runtime monitor: differential against Python's csv module on generated arbitrary-text files; LineEvent hook captures #name/#index reads on every line",
+         "Random files (unicode, embedded delimiters/quotes/LF, ragged, blanks) in 4 delimiters x 2 quote chars are run through the real reader; returned lines, headers and per-line header reads are compared with csv.reader on the same bytes. Held = no divergence on the generated files.",
+         "csv.reader is the reference parser; header cleaning rule transcribed from LineCounter.clean_headers", "DESIGN.md#c06"),
  "C14": ("exploration", "runtime monitor: LineEvent hook on real runs over the exhaustive qualifier x value-history table, compared with a decision function transcribed from docs/assignment.md",
          "Every one of the 256 qualifier subsets x 3-line value histories x rest-matches is executed by the real interpreter and observed per line (value of x, match). Exhaustive for the property quantifier.",
          "decision function (30 lines) transcribed from the property statement; admissible-vote sets where the doc table and priority list disagree (A2)", "DESIGN.md#c14"),
